@@ -24,7 +24,8 @@ RULE = ('cases = programs of 2-8 well-typed links over the whole step catalogue 
         'concatenate, unpivot, sort, dumpers, checkpoint, sources/load; user row/rows/package callables in 5 callable forms, '
         'in-place non-idempotent row functions) on 1-3 typed resources (0-5 rows; sparse 101-150 rows to cross the 100-row '
         'inference sample) x a drawn split x a drawn nesting tree x a drawn conditional wrapping x 3 observation modes; plus '
-        'programs with one uninterpretable link (int, None, object, wrong parameter name, 0 or 2 parameters). non-trivial: '
+        'programs with one uninterpretable link (int, None, object, wrong parameter name, 0 or 2 parameters, iterables whose '
+        'items are not rows: str, dict, scalars, bytes, mixed). non-trivial: '
         '>=2 links of which >=1 changes rows or descriptor; distinct by canonical case hash')
 ASSUMPTIONS = [
     'the descriptor handed from one materialised step to the next is the one downstream steps see (taken before the '
@@ -34,7 +35,9 @@ ASSUMPTIONS = [
 BUDGET = {'quick': dict(examples=960, shards=16, seconds=80),
           'thorough': dict(examples=64000, shards=16, seconds=1200)}
 
-BAD_LINKS = ['int', 'none', 'object', 'wrong-param', 'two-params', 'zero-params']
+BAD_LINKS = ['int', 'none', 'object', 'wrong-param', 'two-params', 'zero-params',
+             # iterables whose items are not rows: the framework says 'Bad item' for each of them
+             'string', 'dict', 'scalar-list', 'scalar-set', 'bytes', 'rows-then-scalar', 'dict-rows-then-list-row', 'none-item']
 
 
 @st.composite
@@ -93,6 +96,22 @@ def bad_link(kind):
         return lambda x: x
     if kind == 'two-params':
         return lambda row, y: row
+    if kind == 'string':
+        return 'abc'
+    if kind == 'dict':
+        return {'a': 1}
+    if kind == 'scalar-list':
+        return [1, 2, 3]
+    if kind == 'scalar-set':
+        return {1, 2}
+    if kind == 'bytes':
+        return b'ab'
+    if kind == 'rows-then-scalar':
+        return [{'a': 1}, {'a': 2}, 3]
+    if kind == 'dict-rows-then-list-row':
+        return [{'a': 1}, [2]]
+    if kind == 'none-item':
+        return [None]
     return lambda: None
 
 
